@@ -29,26 +29,39 @@ MANIFEST = {
 F = "anstyle_wincon::ansi::write_colored"
 
 
-def classify(call):
-    """Effect of a call on `stream`."""
+def classify_all(call):
+    """Effects of a call on `stream`, in order (one write_fmt may render several codes)."""
     call = hir.simp(call)
     if call.get("k") != "call" or not call["args"] or not hir.is_local(call["args"][0], "stream"):
-        return None
+        return []
     if hir.callee_decl(call) == "std::io::Write::write":
-        return ("DATA", hir.local_name(call["args"][1]))
+        return [("DATA", hir.local_name(call["args"][1]))]
     if hir.callee_decl(call) == "std::io::Write::write_fmt":
         pieces, args = hir.fmt_template(call["args"][1])
-        if pieces != [("arg", 0, "new_display")] or len(args) != 1:
-            return ("FMT?", hirpp.expr(call)[:80])
-        a = hir.simp(args[0])
-        if hir.is_call(a, "anstyle::color::AnsiColor::render_fg"):
-            return ("FG", hir.local_name(a["args"][0]))
-        if hir.is_call(a, "anstyle::color::AnsiColor::render_bg"):
-            return ("BG", hir.local_name(a["args"][0]))
-        if hir.is_call(a, "anstyle::reset::Reset::render"):
-            return ("RESET", None)
-        return ("FMT?", hirpp.expr(a)[:80])
-    return ("OTHER", hir.callee(call))
+        out = []
+        for p in pieces:
+            if isinstance(p, str):
+                out.append(("TEXT", p))
+                continue
+            if len(p) > 3 or p[2] != "new_display" or p[1] >= len(args):
+                out.append(("FMT?", str(p)))
+                continue
+            a = hir.simp(args[p[1]])
+            if hir.is_call(a, "anstyle::color::AnsiColor::render_fg"):
+                out.append(("FG", hir.local_name(a["args"][0])))
+            elif hir.is_call(a, "anstyle::color::AnsiColor::render_bg"):
+                out.append(("BG", hir.local_name(a["args"][0])))
+            elif hir.is_call(a, "anstyle::reset::Reset::render"):
+                out.append(("RESET", None))
+            else:
+                out.append(("FMT?", hirpp.expr(a)[:80]))
+        return out
+    return [("OTHER", hir.callee(call))]
+
+
+def classify(call):
+    c = classify_all(call)
+    return c[0] if len(c) == 1 else (("MULTI", None) if c else None)
 
 
 def run(ctx):
@@ -75,8 +88,7 @@ def rule_order(facts, rep):
         events = []
         for t in p.trace:
             if t[0] == "eval":
-                c = classify(t[1])
-                if c:
+                for c in classify_all(t[1]):
                     events.append((c, t[1]))
         # which of fg/bg are present on this path
         flags = {}
@@ -100,6 +112,30 @@ def rule_order(facts, rep):
                 return None
 
             feasible = all(hir.bool_eval(t[1], av) == t[2] for t in p.trace if t[0] == "cond")
+            # `match (fg, bg) { (Some(fg), None) => .. }` form: the arm on this path must be the first one matching the case
+            for t in p.trace:
+                if t[0] == "arm":
+                    sc = hir.simp(t[1])
+                    names = [hir.local_name(x) for x in sc.get("es", [])] if sc.get("k") == "tuple" else [hir.local_name(sc)]
+                    if not all(n in ("fg", "bg") for n in names):
+                        continue
+                    vals = [{"fg": fgs, "bg": bgs}[n] for n in names]
+
+                    def pm(pat, vals=vals, tuple_=(sc.get("k") == "tuple")):
+                        ps = pat.get("pats", []) if (tuple_ and pat.get("k") == "ptuple") else [pat]
+                        if pat.get("k") in ("pwild", "pbind"):
+                            return True
+                        if len(ps) != len(vals):
+                            return True
+                        for q, v in zip(ps, vals):
+                            seg = hir.last_seg(hir.pat_path(q)) if hir.pat_path(q) else None
+                            if seg == "Some" and not v:
+                                return False
+                            if seg == "None" and v:
+                                return False
+                        return True
+                    if not pm(t[2]) or any(pm(q) for q in t[3]):
+                        feasible = False
             if not feasible:
                 continue
             if p.exit == "ret-err":
